@@ -87,7 +87,7 @@ static size_t beltFMTCalcB(u32 mod, size_t count)
 	ASSERT(2 <= mod && mod <= 65536);
 	ASSERT(1 <= count && count <= 300);
 	// обработать особые сочетания (mod, count)
-	if (mod == 49667 && count == 320)
+	if (mod == 49667 && count == 160)
 		return 39;
 	// обработать mod, который не умещается в 16 битов
 	if (mod == 65536)
